@@ -18,9 +18,9 @@ import (
 )
 
 func TestC06(t *testing.T) {
-	V.Rule("lab: requests with 0-6 existing Via entries (now and then, below the sender's, a well-formed one this proxy cannot decode - IPv6 reference, blanks around the slashes or the colon - alone on its line or sharing it) and 0-4 Record-Route entries in any line layout and at any position among the other headers, over the three request paths (backend, Route, static route), must-record-route absent/true/false per listen entry, UDP and TCP ingress, next hop learned through the receiving listener, learned through another listener (an earlier request came from that host), or never learned. Oracle: Via list = [SIP/2.0/<listener transport> addr:port;branch=z9hG4bK+a generated part, never seen before in the run] + input iff destination is a backend or a learned hop (else = input); Record-Route list = [<sip:addr:port;lr>] + input iff a Via was pushed and (input has Record-Route or must-record-route), else = input. Hops known only from the message being routed, or known by name vs by address only, are don't-cares. Branch freshness over every request of the run plus a dedicated run of 12000 (thorough: 20000) relayed requests. non-trivial = >= 2 existing Via entries in >= 2 lines, or >= 1 existing Record-Route, or the not-learned / other-listener variants; distinct by message")
+	V.Rule("lab: requests with 0-6 existing Via entries (now and then, below the sender's, a well-formed one this proxy cannot decode - IPv6 reference, blanks around the slashes or the colon - alone on its line or sharing it) and 0-4 Record-Route entries in any line layout and at any position among the other headers, over the three request paths (backend, Route, static route), must-record-route absent/true/false per listen entry, UDP and TCP ingress, next hop learned through the receiving listener, learned through another listener (an earlier request came from that host), or never learned. Oracle: Via list = [SIP/2.0/<listener transport> addr:port;branch=z9hG4bK+a generated part, never seen before in the run] + input iff destination is a backend or a learned hop (else = input); Record-Route list = [<sip:addr:port;lr>] + input iff a Via was pushed and (input has Record-Route or must-record-route), else = input. Hops known only from the message being routed, or known by name vs by address only, are don't-cares. A fault history (backend-outage): in-dialog requests before, during and after an outage of the TCP backend their dialog is pinned to - whatever arrives at any backend carries exactly one Via and at most one Record-Route entry of the listener. Branch freshness over every request of the run plus a dedicated run of 12000 (thorough: 20000) relayed requests. non-trivial = >= 2 existing Via entries in >= 2 lines, or >= 1 existing Record-Route, or the not-learned / other-listener variants; distinct by message")
 	V.Assume("branch freshness is a probabilistic oracle: 48 random bits, P(collision among 20000) < 1e-6")
-	V.Require("a learned hop still known after thousands of other hosts were learned", "an existing Via entry the proxy cannot decode, sharing its line with decodable ones", "an unrelated TCP connection ended before the request", "via pushed", "no via (hop not learned)", "via names another listener", "rr added", "rr not added (policy)", "existing rr kept", "path:backend", "path:route", "path:static", ">=2 vias in >=2 lines")
+	V.Require("requests of a dialog whose pinned tcp backend goes down and comes back", "a learned hop still known after thousands of other hosts were learned", "an existing Via entry the proxy cannot decode, sharing its line with decodable ones", "an unrelated TCP connection ended before the request", "via pushed", "no via (hop not learned)", "via names another listener", "rr added", "rr not added (policy)", "existing rr kept", "path:backend", "path:route", "path:static", ">=2 vias in >=2 lines")
 	vars := []stdVariant{
 		{MustRR: [3]string{"", "true", "false"}, NoReceived: [3]string{"", "", "true"}},
 		{Keep: "on", MustRR: [3]string{"true", "", ""}},
@@ -36,6 +36,31 @@ func TestC06(t *testing.T) {
 		}
 		svcs = append(svcs, s)
 	}
+	// a fault history: what is handed to a backend around an outage of the backend
+	// a dialog is pinned to - requests that fall back, are retried or re-sent
+	// included - carries one new Via (and Record-Route entry) all the same
+	osvc, err := newStdSvc(stdVariant{Pool: 2, PoolTCP: true})
+	if err != nil {
+		V.HarnessError(t, "cannot start lab instance: %v", err)
+	}
+	rcheck(t, "backend-outage", V.N(12, 150), func(rt *rapid.T) {
+		obs, ok, err := osvc.backendOutage(rt, t.Name()+"/backend-outage")
+		if _, lost := err.(labLost); lost {
+			failf(rt, "%v\nhistory: %s", err, obs)
+		} else if err != nil {
+			V.HarnessError(rt, "%v", err)
+		}
+		if !ok {
+			return
+		}
+		V.Class("requests of a dialog whose pinned tcp backend goes down and comes back")
+		V.NonTrivial("outage|" + obs.String())
+		V.SampleEvery(10, func() any { return obs })
+		l := osvc.in.cfg.Listens[0]
+		if f := outageVias(obs, l.Addr, l.UDPPort); f != "" {
+			failf(rt, "%s", f)
+		}
+	})
 	rcheck(t, "insert", V.N(2500, 20000), func(rt *rapid.T) {
 		s := svcs[rapid.IntRange(0, len(svcs)-1).Draw(rt, "instance")]
 		if rapid.IntRange(0, 7).Draw(rt, "an unrelated TCP client comes and goes") == 0 {
